@@ -62,6 +62,8 @@ T6raw == << "type", "U", "=", "<T", "\"a\"", "|", "\"b\"", "|", "nil", "T>",
             "local", "w", ":", "<T", "(", "(", "number", ")", "->", "number", ")", "?", "T>", "=", "nil",
             "type", "G", "<", "K", ",", "V", "=", "<T", "K", "T>", ">", "=", "<T", "{", "[", "K", "]", ":", "V", "}", "T>",
             "type", "P", "<", "R", "...", ">", "=", "<T", "(", "R", "...", ")", "->", "(", "...", "any", ")", "T>",
+            "local", "q", "=", "z", "::", "<T", "any", "T>", "(", "g", ")", "(", "q", ")",     \* a cast ends its statement: `(g)(q)` is the next one
+            "q", "=", "q", "::", "<T", "{", "}", "T>", "(", "g", "::", "<T", "any", "T>", ")", "(", ")",
             "return", "v", ",", "w" >>
 RECURSIVE Unmark(_, _, _, _, _)
 Unmark(raw, k, toks, open, spans) ==
